@@ -45,3 +45,13 @@ def run(ctx):
     ctx.floor("K9", 2)
     ctx.floor("K2", 3)
     ctx.floor("K1", 11)
+    # what the derived forms override must be what runs: no copy of an overridden delegate, no call pinned to the base class
+    from ..engines import dispatch as DP
+    DP.d1_no_bypass_of_overridden_delegates(ctx, ("ParallelSpecFinder",))
+    ctx.floor("D1", 1)
+    # the extractors look strategies up under (label, tuple of labels) keys
+    from ..engines import storekeys as SK
+    SK.t5_key_shape(ctx)
+    ctx.floor("T5", 12)
+    B.b14_stacks_balanced(ctx, only_classes=("EqPathParallelSpecFinder", "ParallelSpecFinder"))
+    ctx.floor("B14", 4)
